@@ -556,6 +556,8 @@ static int depack_p61a(HIO_HANDLE *in, FILE *out)
     for (i = 0; i < nins; i++) {
 	hio_seek(in, sdata_addr + saddr[i], 0);
 	smp_buffer = (signed char *) calloc(1, smp_size[i]);
+	if (smp_buffer == NULL)
+	    return -1;
 	hio_read(smp_buffer, smp_size[i], 1, in);
 	if (use_delta == 1) {
 	    c1 = 0;
